@@ -1,14 +1,18 @@
-(* Termination of the translated _overlap_split on every input of its safety precondition
-   [Pre__overlap_split] (start <= end pairwise, 0 < interval_size, 0 <= overlap < 1): some fuel makes
-   the checked interpreter return (no error, no fuel exhaustion).
+(* Termination of the translated _overlap_split: some fuel makes the checked interpreter return (no
+   error, no fuel exhaustion), on every input of its safety precondition [Pre__overlap_split]
+   (start <= end pairwise, 0 < interval_size, 0 <= overlap < 1) - and, since the repair of the
+   library, on every input of [Pre__overlap_split_any] (start and end of equal length).
    Jit/Total.v used as a termination-only calculus: the safety annotation of Inv/Overlap_split.v is
-   reused VERBATIM.  Variants: len(start) - k for the outer loop; for the inner loop - whose progress
-   is the FLOAT addition t += (1 - overlap) * interval_size - the number of rows of the output buffer
-   still free, rows - n: the safety argument [rows_bound] (n windows of positive width fit in the
-   total length) is exactly what bounds the number of iterations.
-   Caveat of the idealisation (floats = exact rationals): with IEEE doubles the addition can be
-   absorbed (t + step == t for |t| >= 2^53 * step), a case this model does not represent. *)
-From Coq Require Import ZArith QArith Qround Lqa String List Bool Lia.
+   reused VERBATIM.  Variants: len(start) - k for the outer loop; for the inner loop the number of
+   rows of the output buffer still free, rows - n with rows = max 0 (N + 1): the repaired loop
+   `while t + interval_size < end[k] and n <= N` is entered only with n <= N, so the variant is
+   positive there, and n += 1 decreases it.  This is an INTEGER variant: the progress of the float
+   addition t += (1 - overlap) * interval_size is no longer used (before the repair the bound on
+   the number of iterations was the exact-rational argument that n windows of positive width fit in
+   the total length, and needed 0 < interval_size, overlap < 1).  In particular the absorption of
+   the addition with IEEE doubles (t + step == t for |t| >= 2^53 * step), which the idealisation
+   floats = exact rationals does not represent, no longer matters for this argument. *)
+From Coq Require Import ZArith QArith String List Bool Lia.
 From Verif Require Import Jit.Lang Jit.Interp Jit.Safety Jit.Tactics Jit.ArrayFacts Jit.FloatFacts Jit.Total Gen.Kernels.
 From Verif Require Import Inv.Overlap_split.
 Import ListNotations.
@@ -22,13 +26,13 @@ Definition vnt_term (l : nat) (st : store) : Z :=
   | _ => 0
   end.
 
-Theorem k__overlap_split_returns : forall args, Pre__overlap_split args ->
+Theorem k__overlap_split_returns_any : forall args, Pre__overlap_split_any args ->
   exists fuel rs, run fuel k__overlap_split args = Return rs.
 Proof.
-  intros args (ss & es & isz & ov & -> & Hlen & Hisz & Hov0 & Hov1 & Hle).
+  intros args (ss & es & isz & ov & -> & Hlen).
   unfold run.
   match goal with |- exists fuel rs, Interp.run _ fuel _ ?a = _ =>
-    destruct (run_total all_kernels (ann__overlap_split ss es isz ov) vnt_term
+    destruct (run_total all_kernels (ann__overlap_split ss) vnt_term
                 k__overlap_split (fun _ => True) a) as [fuel [rs [E _]]];
       [| exists fuel, rs; exact E]
   end.
@@ -37,55 +41,25 @@ Proof.
   vc k__overlap_split ann__overlap_split.
   all: rewrite ?zlen_fqs in *.
   all: try solve [unfold zlen in *; lia].
-  all: pose proof (step_pos isz ov Hisz Hov1) as Sp; pose proof (step_le isz ov Hisz Hov0) as Sl.
-  all: repeat match goal with
-         | Hx : exists qt : Q, _ |- _ =>
-             let qt := fresh "qt" in let E := fresh "E" in let I1 := fresh "I" in let I2 := fresh "I" in
-             destruct Hx as (qt & E & I1 & I2); try subst
-         end.
-  all: repeat match goal with
-         | Hx : context [to_flt (nthZ (fqs ?l) ?k)] |- _ =>
-             rewrite (nth_fqs l k) in Hx by (unfold zlen in *; lia)
-         | Hx : cmp_flt Lt (fadd (Some _) (Some _)) (Some _) = true |- _ => apply cond_lt in Hx
-         end.
-  (* 1. entry of the outer loop *)
-  1: { rewrite qpsum_0. set (S := ((1 - ov) * isz)%Q). assert (Ez : (inject_Z 0 == 0)%Q) by reflexivity.
-       rewrite Ez. lra. }
-  (* 2. entry of the inner loop: t = start[k] *)
-  1: { rewrite nth_fqs by (unfold zlen in *; lia). eexists. split; [reflexivity|]. split.
-       - set (S := ((1 - ov) * isz)%Q) in *. set (A := (inject_Z z0 * S)%Q) in *. lra.
-       - apply qnth_le; [assumption | unfold zlen in *; lia]. }
-  (* 3. the variant of the inner loop is non-negative when the body is entered: row n exists *)
+  (* 1. the variant of the inner loop is non-negative when the body is entered: row n is free *)
   1: apply Z.le_0_sub, Z.lt_le_incl.
-  (* 3, 4, 5. row n exists (variant, and the two stores) *)
-  1-3: destruct (sum_flt_lens es ss Hlen) as (qs & Es & Eq); rewrite Es;
-       change (binop_flt Div (Some qs) ?b) with (VFlt (fdiv (Some qs) b));
-       unfold fmul, fsub, f2, qsome;
-       apply rows_bound with (tot := qsum (lens ss es)) (stp := ((1 - ov) * isz)%Q);
-       [ exact Sp | exact Eq | | apply step_model' ];
-       pose proof (qpsum_succ ss es z Hlen ltac:(unfold zlen in *; lia)) as Q1;
-       pose proof (qpsum_le_total ss es (z + 1) Hle) as Q2;
-       set (S := ((1 - ov) * isz)%Q) in *; set (A := (inject_Z z1 * S)%Q) in *; lra.
-  (* 6. one more window: t += step, n += 1 *)
-  1: { unfold fmul, fsub, fadd, f2, qsome. eexists. split; [reflexivity|].
-       pose proof (step_model isz ov) as Em.
-       set (S' := Qred (Qred (qz 1 - ov) * isz)) in *.
-       assert (E1 : (inject_Z (z1 + 1) * ((1 - ov) * isz) == inject_Z z1 * ((1 - ov) * isz) + (1 - ov) * isz)%Q)
-         by (rewrite inject_Z_plus; ring).
-       split.
-       - rewrite E1, Qred_correct. set (S := ((1 - ov) * isz)%Q) in *.
-         set (A := (inject_Z z1 * S)%Q) in *. lra.
-       - rewrite Qred_correct. set (S := ((1 - ov) * isz)%Q) in *. lra. }
-  (* 7. next epoch *)
-  1: { rewrite qpsum_succ by (try assumption; unfold zlen in *; lia).
-       set (S := ((1 - ov) * isz)%Q) in *. set (A := (inject_Z z1 * S)%Q) in *. lra. }
+  (* 1, 2, 3. row n exists (variant, and the two stores), by the guard n <= N *)
+  all: apply guard_row; assumption.
+Qed.
+
+Theorem k__overlap_split_returns : forall args, Pre__overlap_split args ->
+  exists fuel rs, run fuel k__overlap_split args = Return rs.
+Proof. intros args H. apply k__overlap_split_returns_any, Pre__overlap_split_weaken, H. Qed.
+
+Corollary k__overlap_split_terminates_any : forall args, Pre__overlap_split_any args ->
+  exists fuel, run fuel k__overlap_split args <> OutOfFuel.
+Proof.
+  intros args HP. destruct (k__overlap_split_returns_any args HP) as [fuel [rs E]].
+  exists fuel. rewrite E. discriminate.
 Qed.
 
 Corollary k__overlap_split_terminates : forall args, Pre__overlap_split args ->
   exists fuel, run fuel k__overlap_split args <> OutOfFuel.
-Proof.
-  intros args HP. destruct (k__overlap_split_returns args HP) as [fuel [rs E]].
-  exists fuel. rewrite E. discriminate.
-Qed.
+Proof. intros args H. apply k__overlap_split_terminates_any, Pre__overlap_split_weaken, H. Qed.
 
 Print Assumptions k__overlap_split_returns.
